@@ -54,3 +54,8 @@ package keystore
 //@   assigns signs, inferred
 //@ func KeyStore.SignTxWithPassphrase
 //@   assigns signs, inferred
+
+// A key is handed out only if the address stored inside the decrypted key equals the address it
+// was asked for (no key-file swap).
+//@ func keyStorePassphrase.GetKey
+//@   ensures[C20] @address result1 == nil ==> result0 != nil && result0.Address == addr
